@@ -884,6 +884,18 @@ impl<'a> Case<'a> {
                 }
                 "ok".into()
             }
+            "crash_set" => {
+                // several hosts at once, selected by a regex over node names
+                let hs: Vec<usize> = t[1].split(',').map(|h| h[1..].parse().unwrap()).collect();
+                let names: Vec<String> = hs.iter().map(|h| format!("n{h}")).collect();
+                self.sim.crash(regex::Regex::new(&format!("^({})$", names.join("|"))).unwrap());
+                for h in hs {
+                    self.sh.queues.borrow_mut()[h].clear();
+                    self.running[h] = false;
+                }
+                drain_oracle();
+                "ok".into()
+            }
             "crash" => {
                 let h = hi(t[1]);
                 self.sim.crash(ip(t[1]));
